@@ -1,6 +1,5 @@
 SPECIFICATION Spec
 CONSTANTS
-  MaxRich <- Unlimited
   MaxStmts = 30
   MaxDepth = 5
   MaxUnits = 3
@@ -22,6 +21,9 @@ CONSTANTS
   MinEdits = 1
   Randomised = TRUE
   DumpMod = 1
+  NRepl = 17
+  RichOnly = FALSE
+  MaxRich <- Unlimited
   PKinds <- KStruct
   MaxEdits = 1
   NCmtCls = 8
